@@ -286,9 +286,9 @@ def probe_config(res, rng, ek, n, k, periodic, xs, tags, rows):
                 if np.max(np.abs(a - b_)) > 1e-8:
                     viol('periodic basis does not repeat with period (1+1e-9)*range', x,
                          dict(row=a.tolist(), shifted=b_.tolist(), periods=m), 'equal rows')
-                if np.max(np.abs(a - c)) > 1e-8 + abs(m) * 2e-9 * (n + k):
+                if np.max(np.abs(a - c)) > 1e-8 + abs(m) * 1e-9 * n:      # C03_periodic_shift_bound: n * 1e-9 per range (k >= 1); 1e-8 float slack
                     viol('periodic basis does not repeat with period = knot range (up to the 1e-9 bump)', x,
-                         dict(row=a.tolist(), shifted=c.tolist(), periods=m), 'equal rows up to |m|*1e-9*Lipschitz')
+                         dict(row=a.tolist(), shifted=c.tolist(), periods=m), 'equal rows up to |m| * n_splines * 1e-9 (theorem C03_periodic_shift_bound) + 1e-8')
     # affine invariance (away from the jumps of the order-0 / wrapped basis)
     if sc != 1.0 or lo != hi:
         D = discontinuities(n, k, periodic)
